@@ -1054,10 +1054,12 @@ impl<Point: Coordinate+Coordinate2D, Label: Copy> GraphPath<Point, Label> {
         points.sort_by(|point_a, point_b| {
             use std::cmp::{Ordering};
 
-            let x_a = self.points[*point_a].position.x();
-            let x_b = self.points[*point_b].position.x();
+            // Points with similar x coordinates are ordered by their y coordinate. 'Similar' is decided by rounding down to a multiple of 0.01 rather than
+            // by comparing the difference of the two x coordinates, as the ordering must be transitive (`sort_by` may panic if it is not)
+            let x_a = (self.points[*point_a].position.x() / 0.01).floor();
+            let x_b = (self.points[*point_b].position.x() / 0.01).floor();
 
-            if (x_a - x_b).abs() < 0.01 {
+            if x_a == x_b {
                 let y_a = self.points[*point_a].position.y();
                 let y_b = self.points[*point_b].position.y();
 
